@@ -409,6 +409,7 @@ class Molecules:
         pos: list[np.ndarray] = []
         quat: list[np.ndarray] = []
         features: list[pl.DataFrame] = []
+        moles = list(moles)
         for mol in moles:
             pos.append(mol.pos)
             quat.append(mol.quaternion())
@@ -417,8 +418,10 @@ class Molecules:
         all_pos = np.concatenate(pos, axis=0)
         all_quat = np.concatenate(quat, axis=0)
         if concat_features:
-            how = "diagonal" if nullable else "vertical"
-            all_features = pl.concat(features, how=how)
+            if nullable:
+                all_features = pl.concat(_features_to_concat(moles), how="diagonal")
+            else:
+                all_features = pl.concat(features, how="vertical")
         else:
             all_features = None
 
@@ -976,13 +979,14 @@ class Molecules:
             [self.quaternion(), other.quaternion()],
             axis=0,
         )
-        if len(self.features) == 0:
+        if self.count() == 0 and len(self.features) == 0:
             feat = other.features
-        elif len(other.features) == 0:
+        elif other.count() == 0 and len(other.features) == 0:
             feat = self.features
+        elif nullable:
+            feat = pl.concat(_features_to_concat([self, other]), how="diagonal")
         else:
-            how = "diagonal" if nullable else "vertical"
-            feat = pl.concat([self.features, other.features], how=how)
+            feat = pl.concat([self.features, other.features], how="vertical")
         return self.__class__(pos, Rotation.from_quat(rot), features=feat)
 
     @overload
@@ -1119,7 +1123,7 @@ class Molecules:
         if self.count() == 0:
             feat = other.features
         else:
-            feat = pl.concat([self.features, other.features], how="diagonal")
+            feat = pl.concat(_features_to_concat([self, other]), how="diagonal")
             if len(feat.columns) != len(self.features.columns):
                 extra = set(other.features.columns) - set(self.features.columns)
                 raise ValueError(
@@ -1129,6 +1133,32 @@ class Molecules:
         self._rotator = Rotation.from_quat(rot)
         self._features = feat
         return self
+
+
+def _features_to_concat(moles: Iterable[Molecules]) -> list[pl.DataFrame]:
+    """
+    Feature tables of the molecules, ready for a diagonal concatenation.
+
+    A data frame without columns cannot have rows, so molecules without features
+    are given all-null rows of the columns found in the others.
+    """
+    moles = list(moles)
+    schema: dict[str, Any] = {}
+    for mol in moles:
+        for name, dtype in mol.features.schema.items():
+            schema.setdefault(name, dtype)
+    out: list[pl.DataFrame] = []
+    for mol in moles:
+        df = mol.features
+        if df.width == 0 and mol.count() > 0 and schema:
+            df = pl.DataFrame(
+                [
+                    pl.Series(name, [None] * mol.count(), dtype=dtype)
+                    for name, dtype in schema.items()
+                ]
+            )
+        out.append(df)
+    return out
 
 
 def _is_boolean_array(a: Any) -> TypeGuard[NDArray[np.bool_]]:
